@@ -12,6 +12,7 @@ import PnVerif.Spec.MetaSpec
     legal : ncmpii_check_name verdict predicted by the check
   NFC and legality are parameters of the model (Env); the driver instantiates them from the tokens.
 
+    CFG b   (code variant: 1 = ncmpio_copy_att rejects extended types for CDF-1/2 output, Env.copyChk)
     CREATE s fmt hd hv hg ha | OPEN s w hd hv hg ha | CLOSE s | ENDDEF s | REDEF s
     DEFDIM s name size | RENDIM s dimid name | DEFVAR s name xtype n d1..dn | RENVAR s varid name
     PUTATT s varid name T|L xtype n v1..vn | RENATT s varid name new | DELATT s varid name
@@ -54,11 +55,13 @@ structure St where
   legT : List (Name × Bool) := []
   w : World := World.init 2
   sw : SWorld := SWorld.init 2
+  copyChk : Bool := false
 
 def St.env (st : St) : Env :=
   { h := bernstein,
     nfc := fun n => match st.nfcT.find? (fun p => p.1 == n) with | some p => p.2 | none => n,
-    legal := fun n => match st.legT.find? (fun p => p.1 == n) with | some p => p.2 | none => true }
+    legal := fun n => match st.legT.find? (fun p => p.1 == n) with | some p => p.2 | none => true,
+    copyChk := st.copyChk }
 
 /-- register a name token, return the raw bytes -/
 def St.name (st : St) (tok : String) : St × Name :=
@@ -151,6 +154,7 @@ def int! (s : String) : Int := s.toInt?.getD 0
 
 def step (st : St) (line : String) : St × String :=
   match line.trimAscii.toString.splitOn " " with
+  | ["CFG", b] => ({ st with copyChk := b == "1" }, "cfg")
   | ["CREATE", s, fmt, hd, hv, hg, ha] =>
     st.exec st.env (nat! s) (.create (nat! s) ⟨nat! hd, nat! hv, nat! hg, nat! ha, nat! fmt⟩) false false
   | ["OPEN", s, w, hd, hv, hg, ha] =>
